@@ -1,4 +1,492 @@
-//! C18 monitor (not written yet).
-pub fn run(_ctx: &crate::ctx::Ctx, report: &mut vcore::Report) {
-    report.notes.push("stub".into());
+//! C18 – clients return a value only from a complete, correctly typed response.
+//!
+//! A scripted transport answers every request with a response assembled by the harness: status,
+//! Content-Type, a body built constructively from a known value (or broken in a known way), any
+//! chunking, and a stream error at any chunk index. Generated clients of every return class and
+//! macro clients are driven, blocking and async; the two flavours must agree.
+use crate::ctx::{guarded, Ctx};
+use crate::gen::sink::*;
+use crate::hand;
+use crate::node::trunc;
+use crate::svc::*;
+use bytes::Bytes;
+use conjure_error::Error;
+use conjure_http::client::{AsyncClient, AsyncRequestBody, AsyncService, Client, RequestBody, Service};
+use conjure_serde::json;
+use http::{HeaderValue, Request, Response, StatusCode};
+use labrt::{all_chunkings, block_on, random_chunking, ChunkStream, Chunks};
+use serde::de::DeserializeOwned;
+use serde::Serialize;
+use serde_json::json;
+use std::collections::{BTreeMap, BTreeSet};
+use std::sync::Mutex;
+use vcore::rng::fnv;
+use vcore::text::*;
+use vcore::{Report, Rng};
+
+#[derive(Clone)]
+struct Script {
+    status: u16,
+    content_type: Option<Vec<u8>>,
+    chunks: Chunks,
+}
+
+struct Scripted(Mutex<Option<Script>>);
+
+impl Scripted {
+    fn response<B>(&self, wrap: impl FnOnce(Chunks) -> B) -> Response<B> {
+        let s = self.0.lock().unwrap().take().expect("script consumed twice");
+        let mut resp = Response::new(wrap(s.chunks));
+        *resp.status_mut() = StatusCode::from_u16(s.status).unwrap();
+        if let Some(ct) = s.content_type {
+            resp.headers_mut().insert(http::header::CONTENT_TYPE, HeaderValue::from_bytes(&ct).unwrap());
+        }
+        resp
+    }
+}
+
+impl Client for &Scripted {
+    type BodyWriter = Vec<u8>;
+    type ResponseBody = Chunks;
+    fn send(&self, _: Request<RequestBody<'_, Vec<u8>>>) -> Result<Response<Chunks>, Error> {
+        Ok(self.response(|c| c))
+    }
+}
+
+impl AsyncClient for &Scripted {
+    type BodyWriter = Vec<u8>;
+    type ResponseBody = ChunkStream;
+    async fn send(&self, _: Request<AsyncRequestBody<'_, Vec<u8>>>) -> Result<Response<ChunkStream>, Error> {
+        Ok(self.response(ChunkStream::new))
+    }
+}
+
+#[derive(Clone, Copy, PartialEq, Debug)]
+enum Class {
+    Unit,
+    Value,
+    Optional,
+    Collection,
+    Binary,
+    OptionalBinary,
+}
+
+#[derive(Clone, Copy, PartialEq, Debug)]
+enum Shape {
+    Str,
+    Arr,
+    Obj,
+    Num,
+    Any,
+}
+
+enum Call {
+    Sink(Req),
+    Hand(hand::HReq),
+}
+
+struct Ep {
+    name: &'static str,
+    class: Class,
+    shape: Shape,
+    call: fn(&mut Rng) -> Call,
+    /// a valid document of the return type
+    gen: fn(&mut Rng) -> String,
+    canon: fn(&str) -> String,
+    /// rendering of the empty value a 204 stands for (None: 204 is not a valid answer)
+    empty: Option<&'static str>,
+}
+
+fn canon<T: DeserializeOwned + Serialize>(d: &str) -> String {
+    let v: T = json::client_from_str(d).unwrap_or_else(|e| panic!("generator produced an invalid document {}: {}", d, e));
+    j(&v)
+}
+
+fn str_doc(r: &mut Rng) -> String {
+    j(&hostile_string(r, 10))
+}
+
+fn strs_doc(r: &mut Rng) -> String {
+    format!("[{}]", (0..1 + r.below(4)).map(|_| str_doc(r)).collect::<Vec<_>>().join(","))
+}
+
+fn eps() -> Vec<Ep> {
+    let tok = || conjure_object::BearerToken::new("tok").unwrap();
+    vec![
+        Ep { name: "unitReturn", class: Class::Unit, shape: Shape::Any, call: |_| Call::Sink(Req::UnitReturn(1)),
+             gen: |r| r.pick(&["null", "1", "\"x\"", "[1,{\"a\":null}]", "{\"k\":[true]}", "-0.5e3"]).to_string(), canon: |_| "null".into(), empty: Some("null") },
+        Ep { name: "smallBody", class: Class::Value, shape: Shape::Str, call: |_| Call::Sink(Req::SmallBody("x".into())), gen: str_doc, canon: canon::<String>, empty: None },
+        Ep { name: "jsonBody", class: Class::Value, shape: Shape::Obj, call: |r| Call::Sink(Req::JsonBody(Box::new(gen_payload(r)))), gen: |r| gen_payload_json(r, 1), canon: canon::<Payload>, empty: None },
+        Ep { name: "cookieAuth", class: Class::Value, shape: Shape::Num, call: |_| Call::Sink(Req::CookieAuth { token: conjure_object::BearerToken::new("tok").unwrap(), body: 1 }),
+             gen: |r| hostile_i32(r).to_string(), canon: canon::<i32>, empty: None },
+        Ep { name: "choiceBody", class: Class::Value, shape: Shape::Obj, call: |r| Call::Sink(Req::ChoiceBody(gen_choice(r))), gen: |r| j(&gen_choice(r)), canon: canon::<Choice>, empty: None },
+        Ep { name: "optReturn", class: Class::Optional, shape: Shape::Str, call: |_| Call::Sink(Req::OptReturn(1)), gen: str_doc, canon: canon::<Option<String>>, empty: Some("null") },
+        Ep { name: "aliasOptReturn", class: Class::Optional, shape: Shape::Num, call: |_| Call::Sink(Req::AliasOptReturn(1)), gen: |r| hostile_i32(r).to_string(), canon: canon::<MaybeCount>, empty: Some("null") },
+        Ep { name: "optBody", class: Class::Optional, shape: Shape::Obj, call: |_| Call::Sink(Req::OptBody(None)), gen: gen_item_json, canon: canon::<Option<Item>>, empty: Some("null") },
+        Ep { name: "queryParams", class: Class::Collection, shape: Shape::Arr, call: |_| Call::Sink(Req::QueryParams {
+                text: "t".into(), maybe_num: None, str_list: vec![], str_set: BTreeSet::new(), flag: true, dbl: 1.0, uid: None, nums: vec![], flavors: BTreeSet::new(),
+                alias_opt: MaybeCount(None), alias_list: Names(vec![]), when: None }),
+             gen: strs_doc, canon: canon::<Vec<String>>, empty: Some("[]") },
+        Ep { name: "listBody", class: Class::Collection, shape: Shape::Arr, call: |_| Call::Sink(Req::ListBody(vec![1.0])),
+             gen: |r| format!("[{}]", (0..1 + r.below(4)).map(|_| j(&hostile_f64(r))).collect::<Vec<_>>().join(",")), canon: canon::<BTreeSet<conjure_object::DoubleKey>>, empty: Some("[]") },
+        Ep { name: "mapReturn", class: Class::Collection, shape: Shape::Obj, call: |_| Call::Sink(Req::MapReturn(1)),
+             gen: |r| format!("{{{}}}", (0..1 + r.below(3)).map(|i| format!("\"k{}\":{}", i, j(&hostile_f64(r)))).collect::<Vec<_>>().join(",")), canon: canon::<BTreeMap<String, f64>>, empty: Some("{}") },
+        Ep { name: "binaryBody", class: Class::Binary, shape: Shape::Any, call: |_| Call::Sink(Req::BinaryBody(vec![1, 2, 3])), gen: |_| String::new(), canon: |_| String::new(), empty: None },
+        Ep { name: "optBinaryReturn", class: Class::OptionalBinary, shape: Shape::Any, call: |_| Call::Sink(Req::OptBinaryReturn(true)), gen: |_| String::new(), canon: |_| String::new(), empty: Some("<absent>") },
+        Ep { name: "aliasBinaryBody", class: Class::OptionalBinary, shape: Shape::Any, call: |_| Call::Sink(Req::AliasBinaryBody(vec![9])), gen: |_| String::new(), canon: |_| String::new(), empty: Some("<absent>") },
+        Ep { name: "hand.paths", class: Class::Value, shape: Shape::Str, call: |_| Call::Hand(hand::HReq::Paths { p: "p".into(), q: 1 }), gen: str_doc, canon: canon::<String>, empty: None },
+        Ep { name: "hand.query", class: Class::Value, shape: Shape::Arr, call: |_| Call::Hand(hand::HReq::Query { a: "a".into(), list: vec![], c: "c".into() }), gen: strs_doc, canon: canon::<Vec<String>>, empty: None },
+        Ep { name: "hand.body", class: Class::Value, shape: Shape::Obj, call: move |r| Call::Hand(hand::HReq::Body { auth: conjure_object::BearerToken::new("tok").unwrap(), id: "i".into(), custom: "c".into(), body: gen_item(r) }),
+             gen: gen_item_json, canon: canon::<Item>, empty: None },
+    ]
+    .into_iter()
+    .map(|e| {
+        let _ = &tok;
+        e
+    })
+    .collect()
+}
+
+#[derive(Clone, Debug)]
+struct Resp {
+    status: u16,
+    ct: Option<Vec<u8>>,
+    ct_class: &'static str,
+    body: Vec<u8>,
+    body_class: &'static str,
+    /// Some(true): exactly one document of the return type (unknown members allowed)
+    body_ok: Option<bool>,
+    want: String,
+}
+
+fn make_response(r: &mut Rng, ep: &Ep) -> Resp {
+    let binary = matches!(ep.class, Class::Binary | Class::OptionalBinary);
+    let requested: &[u8] = if binary { b"application/octet-stream" } else { b"application/json" };
+    let (ct, ct_class): (Option<Vec<u8>>, &'static str) = match r.below(14) {
+        0 => (None, "absent"),
+        1 => (Some(if binary { b"application/json".to_vec() } else { b"application/octet-stream".to_vec() }), "other-conjure-type"),
+        2 => (Some(b"application/x-jackson-smile".to_vec()), "smile"),
+        3 => (Some(b"text/plain".to_vec()), "text"),
+        4 => (Some([requested, b"; charset=utf-8"].concat()), "with-parameters(observed-only)"),
+        5 => (Some(requested.to_ascii_uppercase()), "upper-case(observed-only)"),
+        _ => (Some(requested.to_vec()), "requested"),
+    };
+    let status = match r.below(10) {
+        0 | 1 => 204,
+        2 => *r.pick(&[201u16, 202, 203, 206]),
+        _ => 200,
+    };
+    if binary {
+        let body = if status == 204 && r.chance(3, 4) { vec![] } else { hostile_bytes(r, 200) };
+        let want = if ep.class == Class::Binary { hex(&body) } else { hex(&body) };
+        return Resp { status, ct, ct_class, body, body_class: "bytes", body_ok: Some(true), want };
+    }
+    let d = (ep.gen)(r);
+    let want = (ep.canon)(&d);
+    const GARBAGE: &[&[u8]] = &[b"x", b"}", b"]", b"\"", b",", b"\x00", b"\xff", b"null", b"{}"];
+    let garbage = GARBAGE[r.below(GARBAGE.len())];
+    let numeric = ep.shape == Shape::Num;
+    let base = d.as_bytes();
+    let (body, body_class, body_ok): (Vec<u8>, &'static str, Option<bool>) = match r.below(14) {
+        0 => ([base, b" \n"].concat(), "trailing-whitespace", Some(true)),
+        1 => ([b"\t ", base].concat(), "leading-whitespace", Some(true)),
+        2 => ([base, garbage].concat(), "trailing-garbage", Some(false)),
+        3 => ([base, b" ", base].concat(), "two-documents", Some(false)),
+        4 if !numeric && ep.shape != Shape::Any && base.len() > 1 => (base[..1 + r.below(base.len() - 1)].to_vec(), "truncated", Some(false)),
+        5 => (vec![], "empty", Some(false)),
+        6 => {
+            let mut b = base.to_vec();
+            let i = r.below(b.len());
+            b[i] = *r.pick(&[b'}', b'x', b'"', b',', 0u8, 0xff, b':', b'[']);
+            let still = vcore::json::parse(&b).is_ok();
+            // a unit endpoint skips the body without validating string contents; whether invalid
+            // UTF-8 inside a string literal makes the body "not well-formed" is left open
+            let skipped_unvalidated = ep.class == Class::Unit && std::str::from_utf8(&b).is_err();
+            (b, "corrupted-byte", if still || skipped_unvalidated { None } else { Some(false) })
+        }
+        7 if ep.shape == Shape::Obj && d.trim_end().ends_with('}') && !matches!(ep.name, "mapReturn" | "choiceBody") => {
+            // unknown members are tolerated by clients (objects only, not maps / unions)
+            let mut t = d.trim_end().to_string();
+            t.pop();
+            let sep = if t.trim_end().ends_with('{') { "" } else { "," };
+            (format!("{}{}\"zzUnknown\":{}}}", t, sep, r.pick(&["1", "null", "{\"a\":[]}"])).into_bytes(), "unknown-member", Some(true))
+        }
+        8 if ep.class != Class::Unit => {
+            let wrong = match ep.shape {
+                Shape::Str => "17",
+                Shape::Arr => "{\"a\":1}",
+                Shape::Obj => "[1,2]",
+                _ => "\"12\"",
+            };
+            (wrong.as_bytes().to_vec(), "wrong-json-kind", Some(false))
+        }
+        _ => (base.to_vec(), "exact", Some(true)),
+    };
+    if status == 204 && r.chance(3, 4) {
+        return Resp { status, ct, ct_class, body: vec![], body_class: "empty", body_ok: Some(false), want };
+    }
+    Resp { status, ct, ct_class, body, body_class, body_ok, want }
+}
+
+fn invoke(ep: &Ep, call: &Call, script: Script, is_async: bool) -> Result<Result<String, Error>, String> {
+    let t = Scripted(Mutex::new(Some(script)));
+    match (call, is_async) {
+        (Call::Sink(req), false) => {
+            let c = SinkServiceClient::new(&t);
+            guarded(|| invoke_sync_any(&c, req))
+        }
+        (Call::Sink(req), true) => {
+            let c = SinkServiceAsyncClient::new(&t);
+            guarded(|| block_on(invoke_async_any(&c, req)))
+        }
+        (Call::Hand(req), false) => {
+            let c = hand::HandApiClient::new(&t);
+            guarded(|| hand_sync(&c, req))
+        }
+        (Call::Hand(req), true) => {
+            let c = hand::AsyncHandApiClient::new(&t);
+            guarded(|| block_on(hand_async(&c, req)))
+        }
+    }
+    .map(|r| {
+        let _ = ep;
+        r
+    })
+}
+
+// The invocation helpers in svc.rs / hand.rs are typed to the loop-back transport; these are the
+// same calls over the scripted transport.
+macro_rules! invoke_scripted {
+    ($fname:ident, $client:ty, [$($async_:tt)?], [$($await_:tt)*], $collect:expr) => {
+        $($async_)? fn $fname(c: &$client, req: &Req) -> Result<String, Error> {
+            let collect = $collect;
+            let opt_hex = |r: Option<Vec<u8>>| r.map(|b| hex(&b)).unwrap_or_else(|| "<absent>".into());
+            Ok(match req {
+                Req::UnitReturn(n) => j(&c.unit_return(*n)$($await_)*?),
+                Req::SmallBody(s) => j(&c.small_body(s)$($await_)*?),
+                Req::JsonBody(p) => j(&c.json_body(p)$($await_)*?),
+                Req::CookieAuth { token, body } => j(&c.cookie_auth(token, *body)$($await_)*?),
+                Req::ChoiceBody(ch) => j(&c.choice_body(ch)$($await_)*?),
+                Req::OptReturn(n) => j(&c.opt_return(*n)$($await_)*?),
+                Req::AliasOptReturn(n) => j(&c.alias_opt_return(*n)$($await_)*?),
+                Req::OptBody(b) => j(&c.opt_body(b.as_ref())$($await_)*?),
+                Req::QueryParams { text, maybe_num, str_list, str_set, flag, dbl, uid, nums, flavors, alias_opt, alias_list, when } => {
+                    j(&c.query_params(text, *maybe_num, str_list, str_set, *flag, *dbl, *uid, nums, flavors, alias_opt.clone(), alias_list, *when)$($await_)*?)
+                }
+                Req::ListBody(v) => j(&c.list_body(v)$($await_)*?),
+                Req::MapReturn(n) => j(&c.map_return(*n)$($await_)*?),
+                Req::BinaryBody(b) => {
+                    let body = c.binary_body(Upload(b.clone()))$($await_)*?;
+                    hex(&collect(body)$($await_)*?)
+                }
+                Req::AliasBinaryBody(b) => match c.alias_binary_body(Upload(b.clone()))$($await_)*? {
+                    Some(body) => opt_hex(Some(collect(body)$($await_)*?)),
+                    None => opt_hex(None),
+                },
+                Req::OptBinaryReturn(p) => match c.opt_binary_return(*p)$($await_)*? {
+                    Some(body) => opt_hex(Some(collect(body)$($await_)*?)),
+                    None => opt_hex(None),
+                },
+                _ => unreachable!("not used by C18"),
+            })
+        }
+    };
+}
+
+invoke_scripted!(invoke_sync_any, SinkServiceClient<&Scripted>, [], [], |c: Chunks| c.collect_bytes());
+invoke_scripted!(invoke_async_any, SinkServiceAsyncClient<&Scripted>, [async], [.await], |c: ChunkStream| c.collect_bytes());
+
+fn hand_sync(c: &hand::HandApiClient<&Scripted>, req: &hand::HReq) -> Result<String, Error> {
+    use hand::HandApi;
+    Ok(match req {
+        hand::HReq::Paths { p, q } => j(&c.paths(p, *q)?),
+        hand::HReq::Query { a, list, c: cc } => j(&c.query(a, list, cc)?),
+        hand::HReq::Body { auth, id, custom, body } => j(&c.body(auth, id, custom, body)?),
+        hand::HReq::Multi(rest) => j(&c.multi(rest)?),
+    })
+}
+
+async fn hand_async(c: &hand::AsyncHandApiClient<&Scripted>, req: &hand::HReq) -> Result<String, Error> {
+    use hand::AsyncHandApi;
+    Ok(match req {
+        hand::HReq::Paths { p, q } => j(&c.paths(p, *q).await?),
+        hand::HReq::Query { a, list, c: cc } => j(&c.query(a, list, cc).await?),
+        hand::HReq::Body { auth, id, custom, body } => j(&c.body(auth, id, custom, body).await?),
+        hand::HReq::Multi(rest) => j(&c.multi(rest).await?),
+    })
+}
+
+/// Reference decision. `Ok(Some(text))`: this value must be returned; `Ok(None)`: an error must be
+/// returned; `Err(class)`: the property leaves the case open.
+fn expect(ep: &Ep, rs: &Resp, fail_at: Option<usize>) -> Result<Option<String>, &'static str> {
+    if ![200, 204].contains(&rs.status) {
+        return Err("other-2xx-status");
+    }
+    if rs.status == 204 {
+        if let Some(empty) = ep.empty {
+            if !rs.body.is_empty() {
+                return Err("204-with-body");
+            }
+            return Ok(Some(empty.to_string()));
+        }
+        // for return types that have no empty value a 204 is judged like any other response:
+        // a value only if the Content-Type is the requested one and the body is one document
+        if !rs.body.is_empty() {
+            return Err("204-with-body");
+        }
+    }
+    if rs.ct_class.ends_with("(observed-only)") {
+        return Err("content-type-spelling");
+    }
+    if rs.ct_class != "requested" {
+        return Ok(None);
+    }
+    if fail_at.is_some() {
+        return Ok(None);
+    }
+    match rs.body_ok {
+        Some(true) => Ok(Some(rs.want.clone())),
+        Some(false) => Ok(None),
+        None => Err("undecided-by-construction"),
+    }
+}
+
+#[allow(clippy::too_many_arguments)]
+fn run_one(rep: &mut Report, sub: &str, seed: u64, ep: &Ep, call: &Call, rs: &Resp, chunks: Vec<Bytes>, fail_at: Option<usize>) {
+    let n = chunks.len();
+    let mk = || {
+        let mut c = Chunks::of(chunks.clone());
+        if let Some(at) = fail_at {
+            c = c.fail_at(at);
+        }
+        Script { status: rs.status, content_type: rs.ct.clone(), chunks: c }
+    };
+    let sync = invoke(ep, call, mk(), false);
+    let asyn = invoke(ep, call, mk(), true);
+    let exp = expect(ep, rs, fail_at);
+    let chunk_class = match n {
+        0 => "0",
+        1 => "1",
+        2 => "2",
+        _ => "3+",
+    };
+    let render = |r: &Result<Result<String, Error>, String>| match r {
+        Err(p) => format!("panic: {}", p),
+        Ok(Ok(v)) => format!("Ok({})", trunc(v)),
+        Ok(Err(e)) => format!("Err({})", labrt::error_class(e)),
+    };
+    let detail = |what: &str| {
+        json!({"endpoint": ep.name, "class": format!("{:?}", ep.class), "what": what, "status": rs.status, "content_type": rs.ct.as_ref().map(|v| String::from_utf8_lossy(v).to_string()),
+               "body": trunc(&String::from_utf8_lossy(&rs.body)), "body_class": rs.body_class, "chunks": n, "stream_error_at": fail_at,
+               "expected": format!("{:?}", exp), "blocking": render(&sync), "async": render(&asyn)})
+    };
+    for (flavour, out) in [("blocking", &sync), ("async", &asyn)] {
+        rep.evaluations += 1;
+        rep.cell(&format!("class/{:?}/{}", ep.class, flavour));
+        rep.cell(&format!("body/{}", rs.body_class));
+        rep.cell(&format!("content-type/{}", rs.ct_class));
+        rep.cell(&format!("chunks/{}/{}", flavour, chunk_class));
+        if fail_at.is_some() {
+            rep.cell(&format!("stream-error/{}/{}", flavour, chunk_class));
+        }
+        rep.distinct.insert(fnv(&format!("{}|{}|{}|{}|{}|{}|{}", ep.name, rs.status, rs.ct_class, rs.body_class, chunk_class, fail_at.map(|a| a.min(3) as i64).unwrap_or(-1), flavour)));
+        let out = match out {
+            Err(_) => {
+                rep.violation(sub, seed, format!("{}:panic:{:?}", flavour, ep.class), detail("panic"));
+                return;
+            }
+            Ok(o) => o,
+        };
+        match (&exp, out) {
+            (Err(class), _) => rep.observed_only(class),
+            (Ok(Some(want)), Ok(got)) if got == want => {}
+            (Ok(Some(_)), Ok(_)) => {
+                rep.violation(sub, seed, format!("{}:wrong-value:{:?}:{}", flavour, ep.class, rs.body_class), detail("returned a different value"));
+                return;
+            }
+            (Ok(Some(_)), Err(_)) => {
+                rep.violation(sub, seed, format!("{}:rejected-valid-response:{:?}:{}", flavour, ep.class, rs.body_class), detail("error for a complete, correctly typed response"));
+                return;
+            }
+            (Ok(None), Ok(_)) => {
+                let why = if rs.status == 204 {
+                    "204-for-non-empty-type"
+                } else if rs.ct_class != "requested" {
+                    "content-type"
+                } else if fail_at.is_some() {
+                    "stream-error"
+                } else {
+                    rs.body_class
+                };
+                rep.violation(sub, seed, format!("{}:value-from-bad-response:{:?}:{}", flavour, ep.class, why), detail("a value was returned from an inadmissible response"));
+                return;
+            }
+            (Ok(None), Err(_)) => {}
+        }
+    }
+    // differential: the duplicated blocking / async code paths must agree
+    if let (Ok(a), Ok(b)) = (&sync, &asyn) {
+        let same = match (a, b) {
+            (Ok(x), Ok(y)) => x == y,
+            (Err(_), Err(_)) => true,
+            _ => false,
+        };
+        if !same {
+            rep.violation(sub, seed, format!("twins-disagree:{:?}:{}", ep.class, rs.body_class), detail("blocking and async clients disagree"));
+        }
+    }
+}
+
+pub fn run(ctx: &Ctx, report: &mut Report) {
+    ctx.cases(report, "random", ctx.n(60_000, 3_000_000), |seed, rep| {
+        let eps = eps();
+        let mut r = Rng::new(seed);
+        let ep = r.pick(&eps);
+        let call = (ep.call)(&mut r);
+        let rs = make_response(&mut r, ep);
+        let chunks = random_chunking(&mut r, &rs.body);
+        let fail_at = if r.chance(1, 5) { Some(r.below(chunks.len() + 1)) } else { None };
+        rep.sample(5, || json!({"sub": "random", "case_seed": seed, "endpoint": ep.name, "status": rs.status, "content_type": rs.ct.as_ref().map(|v| String::from_utf8_lossy(v).to_string()),
+            "body": trunc(&String::from_utf8_lossy(&rs.body)), "body_class": rs.body_class, "chunks": chunks.len(), "stream_error_at": fail_at}));
+        run_one(rep, "random", seed, ep, &call, &rs, chunks, fail_at);
+    });
+    ctx.fixed(report, "enumerated", |rep| {
+        // all chunkings (<= 1 empty chunk) x error positions of a few small responses
+        let eps = eps();
+        let mut r = Rng::new(7);
+        let pick = |n: &str| eps.iter().find(|e| e.name == n).unwrap();
+        let cases: Vec<(&Ep, &str, &'static str, Option<bool>, &str)> = vec![
+            (pick("smallBody"), "\"ab\"", "exact", Some(true), "\"ab\""),
+            (pick("smallBody"), "\"ab\"x", "trailing-garbage", Some(false), ""),
+            (pick("optReturn"), "\"a\"", "exact", Some(true), "\"a\""),
+            (pick("queryParams"), "[\"a\"]", "exact", Some(true), "[\"a\"]"),
+            (pick("queryParams"), "[\"a\"", "truncated", Some(false), ""),
+            (pick("cookieAuth"), "12", "exact", Some(true), "12"),
+            (pick("unitReturn"), "[1]", "exact", Some(true), "null"),
+            (pick("hand.paths"), "\"ab\"", "exact", Some(true), "\"ab\""),
+        ];
+        let mut total = 0u64;
+        for (idx, (ep, text, class, ok, want)) in cases.iter().enumerate() {
+            let call = (ep.call)(&mut r);
+            let rs = Resp { status: 200, ct: Some(b"application/json".to_vec()), ct_class: "requested", body: text.as_bytes().to_vec(), body_class: class, body_ok: *ok, want: want.to_string() };
+            for (k, ch) in all_chunkings(text.as_bytes(), 1).into_iter().enumerate() {
+                let n = ch.len();
+                run_one(rep, "enumerated", (idx * 1_000_000 + k) as u64, ep, &call, &rs, ch.clone(), None);
+                for at in 0..=n {
+                    run_one(rep, "enumerated", (idx * 1_000_000 + k) as u64, ep, &call, &rs, ch.clone(), Some(at));
+                }
+                total += 2 * (n as u64 + 2);
+            }
+        }
+        rep.cell_n("exhaustive/chunkings-x-error-positions", total);
+    });
+    if ctx.replay.is_none() {
+        report.floor_cells("return-classes", "class/", 12);
+        report.floor_cells("body-classes", "body/", 10);
+        report.floor_cells("content-type-classes", "content-type/", 7);
+        report.floor_cells("chunk-paths", "chunks/", 8);
+        report.floor_cells("stream-error-paths", "stream-error/", 8);
+    }
+    report.notes.push("exhaustive part: all chunkings (<= 1 interleaved empty chunk) x stream-error positions of 8 small responses, blocking and async".into());
+    report.notes.push("distinct = (endpoint, status, content-type class, body class, chunk-path class, error position class, flavour)".into());
 }
